@@ -37,6 +37,9 @@ func Cleanup() {
 	}
 }
 
+// RootName is the name of every world's root directory.
+const RootName = `r:o\ot d`
+
 // World is one reference directory: Root is the FS root, Sentinel a sibling that must never change.
 type World struct {
 	Dir      string
@@ -49,7 +52,9 @@ func New() *World {
 	Init()
 	n := atomic.AddInt64(&counter, 1)
 	d := filepath.Join(base, "w"+itoa(n))
-	w := &World{Dir: d, Root: d + "/root", Sentinel: d + "/sentinel"}
+	// the root directory's own name holds a colon, a backslash and a space: ordinary bytes in a Unix path, which the
+	// os-backed FS must treat as such when it is rooted there (through any chain of Sub calls)
+	w := &World{Dir: d, Root: d + "/" + RootName, Sentinel: d + "/sentinel"}
 	must(os.MkdirAll(w.Root, 0o777))
 	must(os.MkdirAll(w.Sentinel, 0o777))
 	must(os.WriteFile(w.Sentinel+"/keep", []byte("sentinel"), 0o644))
